@@ -127,6 +127,25 @@ error:
 }
 
 /*
+ * make_complex: form a complex number from its parts without arithmetic
+ *   @real: real part
+ *   @imag: imaginary part
+ *
+ * Note: real + imag * I loses the sign of a zero real part.
+ */
+static double complex make_complex(double real, double imag)
+{
+    union {
+	double complex z;
+	double parts[2];
+    } u;
+
+    u.parts[0] = real;
+    u.parts[1] = imag;
+    return u.z;
+}
+
+/*
  * parse_complex: parse a complex number
  *   @vlsp: pointer to vnacal_load info structure
  *   @node: yaml node containing text
@@ -197,7 +216,7 @@ static int parse_complex(vnacal_load_state_t *vlsp,
 	*result = value1 * I;
 	break;
     case 6:	/* number number j */
-	*result = value1 + value2 * I;
+	*result = make_complex(value1, value2);
 	break;
     case 12:	/* +j */
 	*result = I;
